@@ -22,6 +22,44 @@ Lemma get_journals_spec {A : Type} (maxl : nat) (m : list A) :
   (0 < maxl)%nat -> get_journals maxl m = if (length m <? maxl)%nat then Some m else None.
 Proof. intros H. unfold get_journals. rewrite get_journals_f_spec by (cbn; lia). reflexivity. Qed.
 
+(* ---- the visit with a journal that cannot be opened *)
+Lemma get_journals_of_all {A : Type} (opens : A -> bool) (maxl : nat) : forall visit acc,
+  (forall x, In x visit -> opens x = true) -> get_journals_of opens maxl visit acc = get_journals_f maxl visit acc.
+Proof.
+  induction visit as [|x tl IH]; intros acc H; [reflexivity|]. cbn [get_journals_of get_journals_f].
+  rewrite (H x (or_introl eq_refl)). destruct (Nat.eqb (length (acc ++ [x])) maxl); [reflexivity|].
+  apply IH. intros y Hy. apply H. right. exact Hy.
+Qed.
+Lemma get_journals_of_fail {A : Type} (opens : A -> bool) (maxl : nat) : forall visit acc x,
+  In x visit -> opens x = false -> get_journals_of opens maxl visit acc = None.
+Proof.
+  induction visit as [|y tl IH]; intros acc x Hin Hx; [destruct Hin|]. cbn [get_journals_of].
+  destruct (opens y) eqn:Ey; [|reflexivity]. destruct (Nat.eqb (length (acc ++ [y])) maxl); [reflexivity|].
+  destruct Hin as [->|Hin]; [congruence|]. exact (IH _ x Hin Hx).
+Qed.
+(* a cursor is never built over a subset: the result of the visit is everything that matches, or a refusal *)
+Lemma get_journals_of_some {A : Type} (opens : A -> bool) (maxl : nat) : forall visit acc l,
+  get_journals_of opens maxl visit acc = Some l -> l = acc ++ visit /\ forall x, In x visit -> opens x = true.
+Proof.
+  induction visit as [|y tl IH]; intros acc l H; cbn [get_journals_of] in H.
+  - injection H as <-. rewrite app_nil_r. split; [reflexivity|]. intros x [].
+  - destruct (opens y) eqn:Ey; [|discriminate]. destruct (Nat.eqb (length (acc ++ [y])) maxl); [discriminate|].
+    destruct (IH _ _ H) as (-> & Ho). rewrite <- app_assoc. split; [reflexivity|]. intros x [<-|Hx]; [exact Ey|exact (Ho x Hx)].
+Qed.
+
+Lemma new_cursor_o_all opens srcs f p : (forall s, In s srcs -> opens s = true) -> new_cursor_o opens srcs f p = new_cursor srcs f p.
+Proof. intros H. unfold new_cursor_o, new_cursor, get_journals_o, get_journals. rewrite get_journals_of_all by exact H. reflexivity. Qed.
+Lemma new_cursor_o_fail opens srcs f p s : In s srcs -> opens s = false -> new_cursor_o opens srcs f p = None.
+Proof. intros Hi Hs. unfold new_cursor_o, get_journals_o. rewrite (get_journals_of_fail opens merge_limit srcs [] s Hi Hs). reflexivity. Qed.
+Lemma new_cursor_o_some opens srcs f p c : new_cursor_o opens srcs f p = Some c ->
+  (forall s, In s srcs -> opens s = true) /\ new_cursor srcs f p = Some c /\ cu_n c = length srcs.
+Proof.
+  intros H. unfold new_cursor_o, get_journals_o in H. destruct (get_journals_of opens merge_limit srcs []) as [l|] eqn:E; [|discriminate].
+  destruct (get_journals_of_some _ _ _ _ _ E) as (El & Ho). cbn [app] in El. subst l. split; [exact Ho|].
+  unfold new_cursor, get_journals. rewrite <- (get_journals_of_all opens merge_limit srcs [] Ho), E.
+  destruct (build_tree (map (fun s => MLeaf (fst s) (snd s)) srcs)); [|discriminate]. injection H as <-. auto.
+Qed.
+
 (* ---- an unfiltered cursor under any interleaving of Get / Next / Release is a list cursor over the merge *)
 Fixpoint spec_run (l : list item) (ops : list cop) : list cobs :=
   match ops with
